@@ -66,6 +66,11 @@ theorem serialization_prefix_free {α : Type} (c : Codec α) (h : Lawful c) (t u
 
 /-- fixed-width little/big-endian unsigned fields -/
 theorem uint_le_lawful (n : Nat) : Lawful (uintLE n) := lawful_uintLE n
+theorem uint_le_valid_iff (n v : Nat) : (uintLE n).valid v ↔ v < 256 ^ n := uintLE_valid n v
+theorem uint_be_valid_iff (n v : Nat) : (uintBE n).valid v ↔ v < 256 ^ n := uintBE_valid n v
+theorem int_le_4_valid_iff (i : Int) : (intLE 4).valid i ↔ -(2 ^ 31 : Int) ≤ i ∧ i < 2 ^ 31 := intLE4_valid i
+theorem int_le_8_valid_iff (i : Int) : (intLE 8).valid i ↔ -(2 ^ 63 : Int) ≤ i ∧ i < 2 ^ 63 := intLE8_valid i
+theorem compact_size_valid_iff (m n : Nat) : (varInt m).valid n ↔ n ≤ m ∧ n < 2 ^ 64 := Iff.rfl
 theorem uint_be_lawful (n : Nat) : Lawful (uintBE n) := lawful_uintBE n
 /-- fixed-width little-endian signed fields (two's complement) -/
 theorem int_le_lawful (n : Nat) : Lawful (intLE n) := lawful_intLE n
@@ -91,6 +96,9 @@ theorem outpoint_lawful : Lawful outPoint := lawful_outPoint
 theorem outpoint_valid_iff (o : OutPoint) : outPoint.valid o ↔ o.txId.length = 32 ∧ o.vout < 2 ^ 32 :=
   outPoint_valid o
 theorem witness_lawful : Lawful witness := lawful_witness
+theorem witness_valid_iff (w : List Bytes) :
+    witness.valid w ↔ (w.length ≤ Gen.Wire.MAX_WITNESS_STACK_ITEMS ∧ w.length < 2 ^ 64) ∧
+      ∀ x ∈ w, x.length ≤ Gen.VarInt.MAX_SIZE := witness_valid w
 theorem txin_lawful : Lawful txIn := lawful_txIn
 theorem txin_valid_iff (i : TxIn) :
     txIn.valid i ↔ outPoint.valid i.prevOut ∧ varBytes.valid i.scriptSig ∧ i.sequence < 2 ^ 32
@@ -100,12 +108,21 @@ theorem txout_valid_iff (o : TxOut) :
     txOut.valid o ↔ (-(2 ^ 63 : Int) ≤ o.value ∧ o.value < 2 ^ 63) ∧ varBytes.valid o.script :=
   txOut_valid o
 
-/-- T1 for transactions (`include_witness=True`): every structurally valid transaction -- any
-    version/locktime below 2^32, counts within the caps, and not the one shape "no input, exactly
-    one output" whose encoding *is* the segwit marker -- parses back from its serialization, and
-    the stream is left on the byte after it. -/
-theorem tx_parse_serialize (t : Tx) (rest : Bytes) (hv : Tx.Valid t) :
+/-- T1 for transactions (`include_witness=True`), PARTIAL: every structurally valid transaction (any
+    version/locktime below 2^32, counts within the caps) that is NOT of the shape "no input, exactly one
+    output" parses back from its serialization, the stream left on the byte after it.  The excluded shape
+    is not a btclib validity rule; see `tx_no_input_one_output_never_round_trips`. -/
+theorem tx_parse_serialize_partial (t : Tx) (rest : Bytes) (hv : Tx.Valid t) :
     Tx.parse (Tx.ser true t ++ rest) = .ok (t, rest) := tx_parse_ser t rest hv
+
+/-- what `_partial` leaves out, as a theorem: a structurally valid transaction with no input and exactly
+    one output NEVER parses back from its own serialization (`… 00 01 …` is read as the segwit marker).
+    btclib builds and serializes such objects (PSBT unsigned-tx templates): known finding
+    `psbt.v0.noinputs.marker`. -/
+theorem tx_no_input_one_output_never_round_trips (t : Tx) (rest : Bytes)
+    (h : t.vin = [] ∧ t.vout.length = 1) : Tx.parse (Tx.ser true t ++ rest) ≠ .ok (t, rest) := by
+  intro hp
+  exact (tx_ser_parse _ _ _ hp).1.2.2.2.2.2 h
 
 /-- T2 for transactions: whatever `Tx.parse` accepts is exactly the serialization of the transaction
     it returns (marker written iff some witness is non-empty) followed by what it left unread. -/
@@ -143,34 +160,58 @@ example : Tx.parse ([1,0,0,0, 0,1, 1] ++ List.replicate 32 7 ++ [0,0,0,0, 0, 0,0
 
 /-- T3: `_serialized_size(include_witness)` is the length of `serialize(include_witness)`, for both
     values of the flag and every CompactSize width of every count and length. -/
-theorem tx_size_eq_length (w : Bool) (t : Tx) (hv : Tx.Valid t) : Tx.size w t = (Tx.ser w t).length :=
+theorem tx_size_eq_length (w : Bool) (t : Tx) (hv : Tx.StructValid t) : Tx.size w t = (Tx.ser w t).length :=
   tx_size_eq w t hv
 
 /-- weight = 3 · stripped length + total length; vsize = ⌈weight / 4⌉ -/
-theorem tx_weight_eq (t : Tx) (hv : Tx.Valid t) :
+theorem tx_weight_eq (t : Tx) (hv : Tx.StructValid t) :
     Tx.weight t = 3 * (Tx.ser false t).length + (Tx.ser true t).length ∧
     4 * Tx.vsize t ≥ Tx.weight t ∧ 4 * Tx.vsize t < Tx.weight t + 4 := by
   refine ⟨by simp only [Tx.weight, tx_size_eq _ t hv], ?_, ?_⟩ <;> (unfold Tx.vsize; omega)
 
-theorem tx_lawful : Lawful tx := lawful_tx
+/-- PARTIAL in the same sense as `tx_parse_serialize_partial`: `tx.valid` excludes the no-input /
+    one-output shape -/
+theorem tx_lawful_partial : Lawful tx := lawful_tx
 
 /-- T4: for any hash function, txid and wtxid coincide when no input has a witness … -/
 theorem txid_eq_wtxid_of_no_witness (H : Bytes → Bytes) (t : Tx) (h : t.isSegwit = false) :
     t.id H = t.wid H := by
   simp [Tx.id, Tx.wid, Tx.ser, h]
 
-/-- … and the ids of a parsed transaction are those of the bytes: wtxid hashes exactly the accepted
-    octets, txid the octets of the stripped transaction. -/
+/-- … and the wtxid of a parsed transaction is that of the bytes: it hashes exactly the accepted octets -/
 theorem wtxid_of_bytes (H : Bytes → Bytes) (b : Bytes) (t : Tx) (hp : tx.parseAll b = .ok t) :
-    t.wid H = (H b).reverse ∧ t.id H = (H (Tx.ser false t)).reverse := by
+    t.wid H = (H b).reverse := by
   have := (lawful_tx.parseAll_iff b t).1 hp
-  exact ⟨by rw [this.2]; rfl, rfl⟩
+  rw [this.2]; rfl
+
+/-- … and txid hashes exactly the accepted octets when they carry no witness (no marker) -/
+theorem txid_of_bytes_of_no_witness (H : Bytes → Bytes) (b : Bytes) (t : Tx) (hp : tx.parseAll b = .ok t)
+    (h : t.isSegwit = false) : t.id H = (H b).reverse := by
+  rw [txid_eq_wtxid_of_no_witness H t h]
+  have := (lawful_tx.parseAll_iff b t).1 hp
+  rw [this.2]; rfl
 
 theorem block_header_lawful : Lawful blockHeader := lawful_blockHeader
+theorem block_header_valid_iff (h : BlockHeader) :
+    blockHeader.valid h ↔ (-(2 ^ 31 : Int) ≤ h.version ∧ h.version < 2 ^ 31) ∧ h.prevHash.length = 32 ∧
+      h.merkleRoot.length = 32 ∧ h.time < 2 ^ 32 ∧ h.bits.length = 4 ∧ h.nonce < 2 ^ 32 := blockHeader_valid h
 /-- a valid header serializes to exactly `_REQUIRED_LENGTH` (80) bytes -/
 theorem block_header_length (h : BlockHeader) (hv : blockHeader.valid h) :
     (blockHeader.ser h).length = Gen.Wire.HEADER_LENGTH := blockHeader_length h hv
-theorem block_lawful : Lawful block := lawful_block
+/-- PARTIAL: inherits the excluded transaction shape through `tx.valid` -/
+theorem block_lawful_partial : Lawful block := lawful_block
+theorem block_valid_iff (b : Block) :
+    block.valid b ↔ blockHeader.valid b.header ∧
+      ((b.txs.length ≤ Gen.Wire.MAX_BLOCK_TX_COUNT ∧ b.txs.length < 2 ^ 64) ∧ ∀ t ∈ b.txs, Tx.Valid t) :=
+  block_valid b
+theorem tx_valid_iff (t : Tx) : tx.valid t ↔ Tx.StructValid t ∧ ¬ (t.vin = [] ∧ t.vout.length = 1) :=
+  ⟨fun h => ⟨h.struct, h.2.2.2.2.2⟩, fun h => ⟨h.1.1, h.1.2.1, h.1.2.2.1, h.1.2.2.2.1, h.1.2.2.2.2, h.2⟩⟩
+example : block.parseAll (block.ser ⟨⟨1, List.replicate 32 1, List.replicate 32 2, 1231006505, [0x1d, 0, 0xff, 0xff], 7⟩,
+      [⟨2, 0, [⟨⟨List.replicate 32 7, 1⟩, [0x51], 5, [[1]]⟩], [⟨50, [0x6a]⟩]⟩]⟩)
+    = .ok ⟨⟨1, List.replicate 32 1, List.replicate 32 2, 1231006505, [0x1d, 0, 0xff, 0xff], 7⟩,
+      [⟨2, 0, [⟨⟨List.replicate 32 7, 1⟩, [0x51], 5, [[1]]⟩], [⟨50, [0x6a]⟩]⟩]⟩ := by decide
+example : blockHeader.parseAll (blockHeader.ser ⟨-1, List.replicate 32 1, List.replicate 32 2, 0, [1, 2, 3, 4], 0xFFFFFFFF⟩)
+    = .ok ⟨-1, List.replicate 32 1, List.replicate 32 2, 0, [1, 2, 3, 4], 0xFFFFFFFF⟩ := by decide
 
 -- non-vacuity: concrete valid objects on both sides of the marker rule
 def exIn : TxIn := ⟨⟨List.replicate 32 7, 1⟩, [0x51], 0xFFFFFFFE, []⟩
@@ -202,6 +243,33 @@ theorem ping_pong_lawful : Lawful nonce8 := lawful_uintLE 8
 theorem feefilter_lawful : Lawful feeFilter := lawful_intLE 8
 theorem empty_payload_lawful : Lawful Btc.Wire.empty := lawful_empty
 theorem network_address_lawful : Lawful netAddr := lawful_netAddr
+theorem network_address_valid_iff (a : NetAddr) :
+    netAddr.valid a ↔ a.services < 2 ^ 64 ∧ a.ip.length = 16 ∧ a.port < 2 ^ 16 := netAddr_valid a
+theorem inventory_valid_iff (i : Nat × Bytes) : inventory.valid i ↔ i.1 < 2 ^ 32 ∧ i.2.length = 32 :=
+  inventory_valid i
+/-- addr / inv / getheaders / headers: `capped_list_valid_iff` at the caps `MAX_ADDR_TO_SEND`, `MAX_INV_SZ`,
+    `MAX_LOCATOR_SZ`, `MAX_HEADERS_RESULTS` over the item validity above -/
+theorem addr_valid_iff (l : List (Nat × NetAddr)) :
+    addr.valid l ↔ (l.length ≤ Gen.VarInt.MAX_SIZE ∧ l.length ≤ Gen.Wire.MAX_ADDR_TO_SEND) ∧
+      ∀ x ∈ l, timedAddr.valid x := listUpTo_valid _ _ l
+theorem inv_valid_iff (l : List (Nat × Bytes)) :
+    inv.valid l ↔ (l.length ≤ Gen.VarInt.MAX_SIZE ∧ l.length ≤ Gen.Wire.MAX_INV_SZ) ∧
+      ∀ x ∈ l, inventory.valid x := listUpTo_valid _ _ l
+theorem headers_valid_iff (l : List (BlockHeader × Unit)) :
+    headers.valid l ↔ (l.length ≤ Gen.VarInt.MAX_SIZE ∧ l.length ≤ Gen.Wire.MAX_HEADERS_RESULTS) ∧
+      ∀ x ∈ l, (pair blockHeader zeroCount).valid x := listUpTo_valid _ _ l
+example : addr.parseAll (addr.ser [(5, ⟨1033, List.replicate 16 9, 8333⟩)]) = .ok [(5, ⟨1033, List.replicate 16 9, 8333⟩)] := by
+  decide
+example : inv.parseAll (inv.ser [(1, List.replicate 32 3), (0x40000002, List.replicate 32 4)])
+    = .ok [(1, List.replicate 32 3), (0x40000002, List.replicate 32 4)] := by decide
+example : locator.parseAll (locator.ser (70016, [List.replicate 32 1, List.replicate 32 2], List.replicate 32 0))
+    = .ok (70016, [List.replicate 32 1, List.replicate 32 2], List.replicate 32 0) := by decide
+example : headers.parseAll (headers.ser [(⟨2, List.replicate 32 1, List.replicate 32 2, 9, [1, 2, 3, 4], 5⟩, ())])
+    = .ok [(⟨2, List.replicate 32 1, List.replicate 32 2, 9, [1, 2, 3, 4], 5⟩, ())] := by decide
+example : Version.parseAll (Version.serAll (⟨70016, 1033, -5, ⟨0, List.replicate 16 0, 0⟩, ⟨1, List.replicate 16 1, 8333⟩,
+      7, [0x2f, 0x62, 0x2f], 800000⟩, some true))
+    = .ok (⟨70016, 1033, -5, ⟨0, List.replicate 16 0, 0⟩, ⟨1, List.replicate 16 1, 8333⟩, 7, [0x2f, 0x62, 0x2f], 800000⟩,
+      some true) := by decide
 theorem addr_lawful : Lawful addr := lawful_addr
 theorem inventory_lawful : Lawful inventory := lawful_inventory
 theorem inv_getdata_notfound_lawful : Lawful inv := lawful_inv
@@ -315,41 +383,49 @@ example : recLe inRank ([3], [0, 0, 0, 0]) ([6, 1], [8]) = true ∧ recLe inRank
   decide
 example : parseMap [1, 3, 1, 0, 1, 3, 1, 1, 0] = .error .dupKey := by decide
 
-/-! ## PSBT typed layer (input maps): exactly what re-serialization normalises away -/
+/-! ## PSBT typed layer (input, output and global maps)
 
-/-- kind 1, "empty value": a whole-value field (key = the type byte alone) that is not in
-    `_PRESENT_IF_NOT_NONE` and not a utxo, whose decoded value is falsy -/
-def EmptyValueKind (r : Rec) : Prop := isWholeRec r = true ∧ falsyIn (tyOf r.1) r.2 = true
-/-- kind 2, "finalized-input field": the input carries a truthy final scriptSig / final witness and the
+`fromRecs` is the dispatch loop of `parse` (which field each record lands in), `toRecs` the loop of
+`serialize` over the emission table; the tables (`specIn`, `specOut`, `specGlobal`) are regenerated from
+psbt_in.py / psbt_out.py / psbt.py on every run. -/
+
+/-- kind 1, "falsy value": a whole-value field that is neither written-whenever-present nor an object,
+    whose value is the empty octet string (for the final witness: the empty stack `00`; for the global
+    version record: `00000000`) -/
+def EmptyValueKind (s : Spec) (r : Rec) : Prop :=
+  s.whole.contains (tyOf r.1) = true ∧ s.falsy (tyOf r.1) r.2 = true
+/-- kind 2, "finalized-input field": the map carries a truthy final scriptSig / final witness and the
     record's field is in `_DROPPED_ONCE_FINALIZED` -/
-def FinalizerFieldKind (recs : List Rec) (r : Rec) : Prop :=
-  finalized recs = true ∧ knownTy r.1 = true ∧
-    Gen.Wire.PSBT_IN_DROPPED_ONCE_FINALIZED.contains (tyOf r.1) = true
+def FinalizerFieldKind (s : Spec) (recs : List Rec) (r : Rec) : Prop :=
+  s.finalized recs = true ∧ s.known (tyOf r.1) = true ∧ s.droppedOnceFinal.contains (tyOf r.1) = true
 
-/-- a falsy value is the empty octet string, or -- for the final witness field -- the empty stack `00` -/
-theorem empty_value_kind_explicit (r : Rec) (h : EmptyValueKind r) :
-    r.2 = [] ∨ (tyOf r.1 = Gen.Wire.PSBT_IN_FINAL_SCRIPTWITNESS ∧ r.2 = [0]) := by
-  have h2 := h.2
-  unfold falsyIn at h2
-  repeat' split at h2
-  · cases h2
-  · cases h2
-  · rename_i e; right; exact ⟨e, by simpa using h2⟩
-  · left; simpa using h2
+theorem psbt_in_tables_wellformed : specIn.WF := wf_specIn
+theorem psbt_out_tables_wellformed : specOut.WF := wf_specOut
+theorem psbt_global_tables_wellformed : specGlobal.WF := wf_specGlobal
 
-/-- THE characterisation: whenever `PsbtIn.parse(b).serialize()` answers, the records of its answer are
-    exactly the records of `b` that are of neither kind.  So every key-value pair (unknown ones included)
-    is kept except an empty-valued whole field and the finalizer-consumed fields of a finalized input;
-    any other dropped, altered or invented pair would contradict this. -/
-theorem psbtin_reserialize_keeps_all_but (ver : Nat) (b out : Bytes) (h : reserIn ver b = .ok out) :
+/-- THE LAW of the typed layer, for any well-formed tables: running the serialize loop (field by field in
+    table order; skip a field dropped once finalized; skip a falsy value; one record for a whole-value
+    field, `sorted(dict.items())` for a dict, the unknown records at their place) over the typed object the
+    parse loop built from a duplicate-free map gives exactly the records that survive the explicit drop
+    predicate, sorted by (field rank, key). -/
+theorem psbt_serialize_loop_of_parse_loop (s : Spec) (wf : s.WF) (recs : List Rec) (hv : ValidRecs recs)
+    (hok : ∀ r ∈ recs, s.whole.contains (tyOf r.1) = true → keyData r.1 = []) :
+    toRecs s (fromRecs s recs) = sortRecs s.rank (recs.filter (fun r => !s.dropped (s.finalized recs) r)) :=
+  toRecs_fromRecs s wf recs hv hok
+
+/-- hence: whenever `X.parse(b).serialize()` answers, its records are exactly the records of `b` that are
+    of neither kind -- every other key-value pair, unknown ones included, is kept unaltered, and none is
+    invented; any other dropped pair would contradict this. -/
+theorem psbt_reserialize_keeps_all_but (s : Spec) (wf : s.WF) (ver : Nat) (b out : Bytes)
+    (h : reser s ver b = .ok out) :
     ∃ recs recs', parseMap b = .ok (recs, []) ∧ parseMap out = .ok (recs', []) ∧
-      ∀ r, r ∈ recs' ↔ r ∈ recs ∧ ¬ EmptyValueKind r ∧ ¬ FinalizerFieldKind recs r := by
-  obtain ⟨recs, hp, _, rfl⟩ := reserIn_ok ver b out h
-  have ⟨hv, _⟩ := serMap_parseMap _ _ _ hp
-  refine ⟨recs, _, hp, parseMap_sorted_kept recs hv, ?_⟩
+      recs' = toRecs s (fromRecs s recs) ∧
+      ∀ r, r ∈ recs' ↔ r ∈ recs ∧ ¬ EmptyValueKind s r ∧ ¬ FinalizerFieldKind s recs r := by
+  obtain ⟨recs, hp, _, hv, e, rfl⟩ := reser_ok s wf ver b out h
+  refine ⟨recs, _, hp, parseMap_sorted_kept s recs hv, e.symm, ?_⟩
   intro r
   rw [mem_sorted_kept]
-  simp only [droppedIn, Bool.or_eq_false_iff, Bool.and_eq_false_iff, EmptyValueKind, FinalizerFieldKind,
+  simp only [Spec.dropped, Bool.or_eq_false_iff, Bool.and_eq_false_iff, EmptyValueKind, FinalizerFieldKind,
     not_and, Bool.not_eq_true]
   constructor
   · rintro ⟨hr, h1, h2⟩
@@ -364,52 +440,92 @@ theorem psbtin_reserialize_keeps_all_but (ver : Nat) (b out : Bytes) (h : reserI
       · exact h2
   · rintro ⟨hr, h1, h2⟩
     refine ⟨hr, ?_, ?_⟩
-    · cases hw : isWholeRec r
+    · cases hw : s.whole.contains (tyOf r.1)
       · left; rfl
       · right; exact h1 hw
-    · cases hf : finalized recs
+    · cases hf : s.finalized recs
       · left; left; rfl
-      · cases hk : knownTy r.1
+      · cases hk : s.known (tyOf r.1)
         · left; right; rfl
         · right; exact h2 hf hk
 
-/-- … and the answer is a fixed point: parsing and serializing it again gives the same octets -/
-theorem psbtin_reserialize_fixed_point (ver : Nat) (b out : Bytes) (h : reserIn ver b = .ok out) :
-    reserIn ver out = .ok out := reserIn_fixed ver b out h
-
-/-- output maps: the records of `PsbtOut.parse(b).serialize()` are exactly the records of `b` other than a
-    whole-value field (not amount / label) with an empty value -/
-theorem psbtout_reserialize_keeps_all_but (ver : Nat) (b out : Bytes) (h : reserOut ver b = .ok out) :
+/-- the three instances: `PsbtIn`, `PsbtOut`, and the global map of `Psbt` (whose version is read off its
+    own version record and whose required fields `_settle_globals` checks) -/
+theorem psbtin_reserialize_keeps_all_but (ver : Nat) (b out : Bytes) (h : reser specIn ver b = .ok out) :
     ∃ recs recs', parseMap b = .ok (recs, []) ∧ parseMap out = .ok (recs', []) ∧
-      ∀ r, r ∈ recs' ↔ r ∈ recs ∧ droppedOut r = false := by
-  obtain ⟨recs, hp, _, rfl⟩ := reserOut_ok ver b out h
-  have ⟨hv, _⟩ := serMap_parseMap _ _ _ hp
-  exact ⟨recs, _, hp, parseMap_sorted_keptOut recs hv, mem_sorted_keptOut recs⟩
+      recs' = toRecs specIn (fromRecs specIn recs) ∧
+      ∀ r, r ∈ recs' ↔ r ∈ recs ∧ ¬ EmptyValueKind specIn r ∧ ¬ FinalizerFieldKind specIn recs r :=
+  psbt_reserialize_keeps_all_but specIn wf_specIn ver b out h
 
-theorem dropped_out_explicit (r : Rec) (h : droppedOut r = true) :
-    r.2 = [] ∧ r.1.length = 1 ∧ OUT_WHOLE.contains (tyOf r.1) = true := by
-  simp only [droppedOut, Bool.and_eq_true, List.isEmpty_iff, keyData] at h
-  obtain ⟨⟨⟨a, b⟩, _⟩, d⟩ := h
-  refine ⟨d, ?_, a⟩
-  cases hk : r.1 with
-  | nil => rw [hk] at a; simp [tyOf, OUT_WHOLE] at a
-  | cons x xs => rw [hk] at b; simp at b; simp [b]
+/-- outputs and globals are never "finalized": only the falsy-value kind exists there -/
+theorem psbtout_reserialize_keeps_all_but (ver : Nat) (b out : Bytes) (h : reser specOut ver b = .ok out) :
+    ∃ recs recs', parseMap b = .ok (recs, []) ∧ parseMap out = .ok (recs', []) ∧
+      ∀ r, r ∈ recs' ↔ r ∈ recs ∧ ¬ EmptyValueKind specOut r := by
+  obtain ⟨recs, recs', h1, h2, _, h3⟩ := psbt_reserialize_keeps_all_but specOut wf_specOut ver b out h
+  refine ⟨recs, recs', h1, h2, fun r => ?_⟩
+  rw [h3 r]
+  have : ¬ FinalizerFieldKind specOut recs r := fun hf => by
+    have := hf.2.2; simp [specOut] at this
+  simp [this]
 
-theorem psbtout_reserialize_fixed_point (ver : Nat) (b out : Bytes) (h : reserOut ver b = .ok out) :
-    reserOut ver out = .ok out := reserOut_fixed ver b out h
+theorem psbtglobal_reserialize_keeps_all_but (b out : Bytes) (h : reserGlobal b = .ok out) :
+    ∃ recs recs', parseMap b = .ok (recs, []) ∧ parseMap out = .ok (recs', []) ∧
+      ∀ r, r ∈ recs' ↔ r ∈ recs ∧ ¬ EmptyValueKind specGlobal r := by
+  obtain ⟨ver, _, h'⟩ := reserGlobal_ok b out h
+  obtain ⟨recs, recs', h1, h2, _, h3⟩ := psbt_reserialize_keeps_all_but specGlobal wf_specGlobal ver b out h'
+  refine ⟨recs, recs', h1, h2, fun r => ?_⟩
+  rw [h3 r]
+  have : ¬ FinalizerFieldKind specGlobal recs r := fun hf => by
+    have := hf.2.2; simp [specGlobal] at this
+  simp [this]
 
-example : droppedOut ([0], []) = true ∧ droppedOut ([3], [0, 0, 0, 0, 0, 0, 0, 0]) = false
-    ∧ droppedOut ([6], []) = true ∧ droppedOut ([0xfc], []) = false := by decide
-/-- a tap tree record with key data is refused (regression for /repo bfff2ab9) -/
-example : recordOkOut 0 ([6, 0xaa], [0, 0xc0, 1, 0x51]) = false ∧ recordOkOut 0 ([6], [0, 0xc0, 1, 0x51]) = true := by
-  decide
+/-- the falsy values, explicitly -/
+theorem empty_value_kind_in_explicit (r : Rec) (h : EmptyValueKind specIn r) :
+    r.2 = [] ∨ (tyOf r.1 = Gen.Wire.PSBT_IN_FINAL_SCRIPTWITNESS ∧ r.2 = [0]) := by
+  have h2 := h.2
+  unfold Spec.falsy at h2
+  split at h2
+  · cases h2
+  · simp only [specIn, List.lookup] at h2
+    cases hb : (tyOf r.1 == Gen.Wire.PSBT_IN_FINAL_SCRIPTWITNESS)
+    · rw [hb] at h2; left; simpa using h2
+    · rw [hb] at h2; right; exact ⟨by simpa using hb, by simpa using h2⟩
 
--- an explicit sighash type of zero is a record (kept); an empty redeem script is normalised away; a
--- partial signature goes once the input is finalized; an unknown record stays even then
-example : droppedIn false ([3], [0, 0, 0, 0]) = false ∧ droppedIn false ([4], []) = true
-    ∧ droppedIn false ([8], [0]) = true ∧ droppedIn true ([2, 9], [1]) = true
-    ∧ droppedIn false ([2, 9], [1]) = false ∧ droppedIn true ([0xfc, 1], []) = false := by decide
-example : finalized [([7], [0x51])] = true ∧ finalized [([7], [])] = false ∧ finalized [([8], [0])] = false := by
+theorem empty_value_kind_global_explicit (r : Rec) (h : EmptyValueKind specGlobal r) :
+    r.2 = [] ∨ (tyOf r.1 = Gen.Wire.PSBT_GLOBAL_VERSION ∧ r.2 = [0, 0, 0, 0]) := by
+  have h2 := h.2
+  unfold Spec.falsy at h2
+  split at h2
+  · cases h2
+  · simp only [specGlobal, List.lookup] at h2
+    cases hb : (tyOf r.1 == Gen.Wire.PSBT_GLOBAL_VERSION)
+    · rw [hb] at h2; left; simpa using h2
+    · rw [hb] at h2; right; exact ⟨by simpa using hb, by simpa using h2⟩
+
+/-- … and the answer is a fixed point: parsing and serializing it again gives the same octets -/
+theorem psbt_reserialize_fixed_point (s : Spec) (wf : s.WF) (ver : Nat) (b out : Bytes)
+    (h : reser s ver b = .ok out) : reser s ver out = .ok out := reser_fixed s wf ver b out h
+
+-- an explicit sighash type of zero is a record (kept); an empty redeem script is normalised away; a partial
+-- signature goes once the input is finalized; an unknown record stays even then; a version-0 record goes
+example : specIn.dropped false ([3], [0, 0, 0, 0]) = false ∧ specIn.dropped false ([4], []) = true
+    ∧ specIn.dropped false ([8], [0]) = true ∧ specIn.dropped true ([2, 9], [1]) = true
+    ∧ specIn.dropped false ([2, 9], [1]) = false ∧ specIn.dropped true ([0xfc, 1], []) = false := by decide
+example : specIn.finalized [([7], [0x51])] = true ∧ specIn.finalized [([7], [])] = false
+    ∧ specIn.finalized [([8], [0])] = false := by decide
+example : specOut.dropped false ([0], []) = true ∧ specOut.dropped false ([3], [0, 0, 0, 0, 0, 0, 0, 0]) = false
+    ∧ specOut.dropped false ([6], []) = true ∧ specOut.dropped false ([0xfc], []) = false := by decide
+example : specGlobal.dropped false ([0xfb], [0, 0, 0, 0]) = true ∧ specGlobal.dropped false ([0xfb], [2, 0, 0, 0]) = false
+    ∧ specGlobal.dropped false ([9], []) = false := by decide
+/-- a tap tree record with key data is refused (regression for /repo bfff2ab9); so is a global version
+    record with key data (the model refuses it at every position) -/
+example : specOut.recordOk 0 ([6, 0xaa], [0, 0xc0, 1, 0x51]) = false ∧ specOut.recordOk 0 ([6], [0, 0xc0, 1, 0x51]) = true
+    ∧ specGlobal.recordOk 0 ([0xfb, 1], [0xaa]) = false := by decide
+/-- the parse loop on a small map: which field each record lands in -/
+example : (fromRecs specIn [([0xfc, 9], [5]), ([4], []), ([3], [0, 0, 0, 0]), ([6, 2], [7])]).whole
+      = [(4, []), (3, [0, 0, 0, 0])]
+    ∧ (fromRecs specIn [([0xfc, 9], [5]), ([4], []), ([3], [0, 0, 0, 0]), ([6, 2], [7])]).keyed = [(6, [2], [7])]
+    ∧ (fromRecs specIn [([0xfc, 9], [5]), ([4], []), ([3], [0, 0, 0, 0]), ([6, 2], [7])]).unknown = [([0xfc, 9], [5])] := by
   decide
 
 -- non-vacuity (CompactSize): the hypotheses are met by concrete non-trivial values on each width
